@@ -30,7 +30,9 @@ type scenario struct {
 	Start     int32    // value the id counter is placed at
 	Stagger   int      // ms between caller starts
 	DialMs    int
-	ReadMs    int
+	ReadMs    int    // ClientReadTimeout (0 is legal: no read deadline)
+	WriteMs   int    // ClientWriteTimeout (0 is legal: no write deadline)
+	Filter    string // client filters registered in this process
 	QMax      int32
 	Listen    string // peer | refuse | blackhole
 	Sequel    int    // > 0: callers 1..Sequel run concurrently and caller c+Sequel is the same goroutine's next call
@@ -248,6 +250,7 @@ func runScenario(seed int64, sc *scenario) ([]tr.Ev, []string) {
 	rec := newRecorder()
 	comm.Client.ClientDialTimeout = time.Duration(sc.DialMs) * time.Millisecond
 	comm.Client.ClientReadTimeout = time.Duration(sc.ReadMs) * time.Millisecond
+	comm.Client.ClientWriteTimeout = time.Duration(sc.WriteMs) * time.Millisecond
 	comm.Client.ObjQueueMax = sc.QMax
 	var p *peer
 	var bh *blackhole
@@ -281,7 +284,8 @@ func runScenario(seed int64, sc *scenario) ([]tr.Ev, []string) {
 	start, _ := mapID(sc.Start)
 	rec.t0 = time.Now()
 	rec.emit("Config", "sc", sc.Idx, "cls", sc.Cls, "k", sc.K, "to", sc.Eff[1:], "start", start, "dial", sc.DialMs, "rt", sc.ReadMs,
-		"qmax", int(sc.QMax), "listen", sc.Listen, "stagger", sc.Stagger, "cfgto", sc.CfgTO, "modes", sc.Modes[1:])
+		"qmax", int(sc.QMax), "listen", sc.Listen, "stagger", sc.Stagger, "cfgto", sc.CfgTO, "modes", sc.Modes[1:], "wt", sc.WriteMs,
+		"flt", sc.Filter, "hold", sc.HoldUnreg)
 	cur.Store(curBox{st})
 	var wg sync.WaitGroup
 	returned := make([]int32, sc.K+1)
@@ -320,7 +324,11 @@ func runScenario(seed int64, sc *scenario) ([]tr.Ev, []string) {
 				ctx = current.ContextWithClientCurrent(ctx)
 				current.SetClientTimeout(ctx, sc.Eff[c])
 			case "ctx":
-				ctx, cancel = context.WithTimeout(ctx, time.Duration(sc.Eff[c])*time.Millisecond)
+				d := time.Duration(sc.Eff[c]) * time.Millisecond
+				if sc.Eff[c] == 0 { // a deadline below the granularity of the configured timeouts
+					d = 300 * time.Microsecond
+				}
+				ctx, cancel = context.WithTimeout(ctx, d)
 				defer cancel()
 			}
 			var resp requestf.ResponsePacket
@@ -385,7 +393,13 @@ func runScenario(seed int64, sc *scenario) ([]tr.Ev, []string) {
 		}
 	}
 	stable, last := 0, int32(-1)
-	for i := 0; i < 300 && stable < 2; i++ {
+	rounds := 300
+	if sc.ReadMs == 0 {
+		// with ClientReadTimeout = 0 a receiver that found its entry ends without a report (rtimer.After(0) panics inside
+		// AdapterProxy.Recv and is recovered there): the counter of open receivers cannot be relied on
+		rounds = 25
+	}
+	for i := 0; i < rounds && stable < 2; i++ {
 		time.Sleep(12 * time.Millisecond)
 		n := atomic.LoadInt32(&st.nrecv)
 		if atomic.LoadInt32(&st.open) == 0 && n == last {
